@@ -551,6 +551,10 @@ class Interp:
         return res
 
     def to_str(self, val):
+        if isinstance(val, Struct) and "_str" in val.f:
+            return val.f["_str"]
+        if isinstance(val, Sym) and val.schema and "__str__" in C.SCHEMAS[val.schema].methods:
+            return C.SCHEMAS[val.schema].methods["__str__"](self, val, [], {})
         if is_enum(val):
             return self.vc.concretize(val)
         if isinstance(val, str):
@@ -802,6 +806,8 @@ class Interp:
 
     # iteration over concrete shapes ------------------------------------
     def iterate_concrete(self, v):
+        if is_enum(v):
+            v = self.vc.concretize(v)
         if isinstance(v, tuple):
             return list(v)
         if isinstance(v, PList):
